@@ -184,6 +184,17 @@ fn run_template_with(ctx: &Ctx, kind: &str, live: usize, n: usize, sliced: bool,
         }
         ctx.sample(|| json!({"kind": kind, "live": live, "n": n, "sliced": sliced, "after_n": {"heap_cells": m1.heap_cap, "stack_slots": m1.stack_cap, "bytes": m1.bytes}, "after_10n": {"heap_cells": m2.heap_cap, "stack_slots": m2.stack_cap, "bytes": m2.bytes, "collections": m2.collections}}));
     }
+    // whatever the history: a heap of more than 2^20 cells for at most ~12,000 live cells and
+    // loops that allocate at most ~200 cells per iteration is out of all proportion (the largest
+    // plateau on the unchanged tree is 98,304 cells). This also catches a runaway that the warm-up
+    // or the first measurement has already absorbed.
+    const OUT_OF_PROPORTION: usize = 1 << 20;
+    if m2.heap_cap > OUT_OF_PROPORTION {
+        return Some((
+            format!("C12|{}|heap-out-of-proportion", kind),
+            format!("heap capacity {} cells after {} iterations with a live set of {} objects", m2.heap_cap, 10 * n, live),
+        ));
+    }
     let grew = |a: usize, b: usize, slack: usize| b > a + a / 2 + slack;
     if grew(m1.heap_cap, m2.heap_cap, 8192) {
         return Some((format!("C12|{}|heap-grows-with-work", kind), format!("heap capacity {} cells after n={} iterations, {} after 10n (live set {})", m1.heap_cap, n, m2.heap_cap, live)));
@@ -202,7 +213,7 @@ impl Prop for C12 {
         "C12"
     }
     fn rule(&self) -> &'static str {
-        "garbage-producing loop templates, one per allocation kind (pairs, lists, vectors, strings, closures and their environments, continuations, checkpoint continuations handed to a recording helper after an earlier 600-deep recursion, code compiled by eval, lambdas compiled by eval (also with fresh parameter names every time), builtins that allocate a whole list/vector/string in one instruction, interned symbols, bignums, floats/rationals, promises, mixed) and six harness-driven kinds (successive top-level evaluations, redefinition of one global, fresh quoted symbols, a lambda per evaluation, fresh unbound global names, evaluations that fail at compile time after allocating a literal) x live-set size {0, 10, 1000 pairs; for eight kinds also 1000 records of about 12 cells each, so that the live data outgrows the first heap chunk} x n and 10n (quick n=5000, thorough n=10^5). Heap capacity, stack capacity and process live bytes after 10n must be <= 1.5x the values after n + slack (8192 cells / 256 slots / 1 MiB); the live set's checksum must be intact; after every collection no cell unreachable by the harness' traversal may remain allocated. Non-trivial: at least 3 collections happened; distinct by (kind, live, n)."
+        "garbage-producing loop templates, one per allocation kind (pairs, lists, vectors, strings, closures and their environments, continuations, checkpoint continuations handed to a recording helper after an earlier 600-deep recursion, code compiled by eval, lambdas compiled by eval (also with fresh parameter names every time), builtins that allocate a whole list/vector/string in one instruction, interned symbols, bignums, floats/rationals, promises, mixed) and six harness-driven kinds (successive top-level evaluations, redefinition of one global, fresh quoted symbols, a lambda per evaluation, fresh unbound global names, evaluations that fail at compile time after allocating a literal) x live-set size {0, 10, 1000 pairs; for eight kinds also 1000 records of about 12 cells each, so that the live data outgrows the first heap chunk} x n and 10n (quick n=5000, thorough n=10^5). Heap capacity, stack capacity and process live bytes after 10n must be <= 1.5x the values after n + slack (8192 cells / 256 slots / 1 MiB); heap capacity must never exceed 2^20 cells; the live set's checksum must be intact; after every collection no cell unreachable by the harness' traversal may remain allocated. Non-trivial: at least 3 collections happened; distinct by (kind, live, n)."
     }
     fn assumptions(&self) -> Vec<&'static str> {
         vec![
